@@ -88,6 +88,32 @@ class Check(BaseCheck):
                     fails.append(core.Failure("correspondence", "normal_offset_ vs model", c["name"], c))
             elif ro != "err " + io[1]:
                 fails.append(core.Failure("correspondence", "normal_offset_ vs model", "%s impl %s model %s" % (c["name"], io, ro[:40]), c))
+            if im["vnormals"][0] == "ok" and io[0] == "ok":
+                # the same operations on ONE object, interleaved with queries: the model is stateless, so every step must be the
+                # model's function of the current vertices (no cached normals may survive a vertex-moving operation)
+                ds = [0.2 * im["avg"] * float(rng.uniform(0.3, 1.0)), -0.15 * im["avg"] * float(rng.uniform(0.3, 1.0))]
+                def seq_impl():
+                    m = TriaMesh(v, t)
+                    out = [np.array(m.vertex_normals())]
+                    for dd in ds:
+                        m.normal_offset_(dd)
+                        out.append(np.array(m.v)); out.append(np.array(m.vertex_normals()))
+                    return out
+                sq = core.call(seq_impl)
+                stats.monitor("offset/query sequences on one object compared step by step")
+                ok = sq[0] == "ok"
+                vm = v
+                if ok:
+                    for j, dd in enumerate(ds):
+                        ra = wire.Reply(drv.ask("offset %s %s %s" % (wire.fhex(dd), wire.verts(vm), wire.elems(t))))
+                        if ra.status != "ok":
+                            ok = False; break
+                        vm = ra.v3s()
+                        mm2 = parse_measures(wire.Reply(drv.ask("measures %s %s" % (wire.verts(vm), wire.elems(t)))))
+                        if core.relerr(sq[1][1 + 2 * j], vm) > 1e-9 or mm2["vnormals"][0] != "ok" or np.max(np.abs(sq[1][2 + 2 * j] - mm2["vnormals"][1])) > 1e-8:
+                            ok = False; break
+                if not ok:
+                    fails.append(core.Failure("correspondence", "vertex_normals / normal_offset_ sequence on one object vs model", c["name"], c))
             if len(fails) > 6:
                 return fails
         for c in gen.tet_stream(self.seed + 52, 8 if self.quick else 100, size):
@@ -193,4 +219,25 @@ class Check(BaseCheck):
             io = core.call(off)
             if io[0] != "ok" or np.max(np.abs(np.linalg.norm(io[1] - v, axis=1)[ln > 0.5] - d)) > 1e-9:
                 return core.Violation("normal_offset_", "vertices not moved by exactly |d| along the vertex normal", case)
+            # the same on ONE object across vertex-moving operations: normals / offsets always refer to the current vertices
+            def seq():
+                m = TriaMesh(v, t)
+                m.vertex_normals()
+                out = []
+                for op, arg in (("normal_offset_", 0.21 * im["avg"]), ("smooth_", 1), ("normal_offset_", -0.13 * im["avg"])):
+                    before = np.array(m.v)
+                    fresh = TriaMesh(before, np.array(m.t)).vertex_normals()
+                    getattr(m, op)(arg)
+                    after_n = m.vertex_normals()
+                    out.append((op, arg, before, fresh, np.array(m.v), np.array(after_n), TriaMesh(np.array(m.v), np.array(m.t)).vertex_normals()))
+                return out
+            sq = core.call(seq)
+            if sq[0] != "ok":
+                return core.Violation("runs", "offset / smoothing sequence raised %s" % (sq[1:],), case)
+            for op, arg, before, fresh, after, after_n, fresh_after in sq[1]:
+                if op == "normal_offset_" and np.max(np.abs(after - (before + arg * fresh))) > 1e-9 * max(1.0, np.abs(before).max()):
+                    return core.Violation("normal_offset_", "after earlier in-place operations normal_offset_(d) does not move the vertices by d along their current vertex normals", case)
+                if np.max(np.abs(after_n - fresh_after)) > 1e-9:
+                    return core.Violation("vertex_normals", "vertex_normals after %s differs from the normals of the current vertices (max %.3g)" % (
+                        op, np.max(np.abs(after_n - fresh_after))), case)
         return None
